@@ -5,7 +5,7 @@ import shv
 
 def run_lemma(sc, unit, pid, tier):
     out = {'cmds': [], 'discharged': {}, 'failed': {}, 'undecided': [], 'reports': [], 'n_checks': 0, 'solver_s': 0.0, 'scan': [unit['source']], 'raw': ''}
-    cmd = ['verus', unit['source'], '--time']
+    cmd = ['verus', unit['source'], '--time', '--triggers-mode', 'silent']
     rc, o, wall, to = shv.run_cmd(cmd, sc.path, unit.get('timeout_s', 300))
     out['cmds'].append(' '.join(cmd))
     out['raw'] = o[-3000:]
